@@ -89,7 +89,7 @@ class World:
 			'grammar': os.path.join(REPO, 'data/grammar.lark'),
 			'template_dirs': [os.path.join(REPO, 'data/cpp/template')],
 			'trans_mapping': os.path.join(REPO, 'data/i18n.yml'),
-			'input_globs': [f'vm/{STEM[m]}.py' for m in self.targets],
+			'input_globs': [f'vm/{STEM.get(m, m)}.py' for m in self.targets],
 			'exclude_patterns': [],
 			'output_dirs': ['out/'],
 			'output_language': 'cpp:h',
@@ -104,10 +104,10 @@ class World:
 
 	# -- operations ------------------------------------------------------------------------------------------
 	def src_path(self, m: str) -> str:
-		return os.path.join(self.root, 'vm', f'{STEM[m]}.py')
+		return os.path.join(self.root, 'vm', f'{STEM.get(m, m)}.py')
 
 	def out_path(self, m: str) -> str:
-		return os.path.join(self.out_dir, 'vm', f'{STEM[m]}.h')
+		return os.path.join(self.out_dir, 'vm', f'{STEM.get(m, m)}.h')
 
 	def edit(self, m: str, v: int, t: int | None = None) -> None:
 		"""new content and new modification time; t = the time of the specification (1 = initial), default: one later than before"""
@@ -147,7 +147,7 @@ class World:
 	def cache_files(self, kind: str, m: str = '') -> list[str]:
 		if kind == 'parser':
 			return sorted(glob.glob(os.path.join(self.cache_dir, 'parser.cache-*.bin')))
-		stem = STEM[m]
+		stem = STEM.get(m, m)
 		files = sorted(glob.glob(os.path.join(self.cache_dir, 'vm', f'{stem}-*.json')))
 		if kind == 'sym':
 			return [f for f in files if os.path.basename(f).startswith(f'{stem}-symbols-')]
@@ -205,12 +205,12 @@ class ColdOracle:
 		key = (m, tuple(sorted(vector.items())))
 		if key not in self.memo:
 			from harness.tranp_env import Env
-			sources = {f'vm.{STEM[d]}': source_of(self.graph, d, v) for d, v in vector.items()}
+			sources = {f'vm.{STEM.get(d, d)}': source_of(self.graph, d, v) for d, v in vector.items()}
 			import tempfile
 			cold_dir = tempfile.mkdtemp(prefix='cold-cache-', dir=os.getcwd())  # cold by construction: empty directory
 			try:
 				env = Env(sources=sources, cache_dir=cold_dir, cache_enabled=True)
-				text = env.transpile(f'vm.{STEM[m]}')
+				text = env.transpile(f'vm.{STEM.get(m, m)}')
 			finally:
 				shutil.rmtree(cold_dir, ignore_errors=True)
 			self.memo[key] = text.partition('\n')[2]
